@@ -838,3 +838,57 @@ _STEP_LIST = """        instants = [initial_time + k*time_discretization for k i
 for _pid in ('C01', 'C03', 'C11', 'C16', 'C17'):
     benign(_pid, 'stepping-over-precomputed-instants', SV, _STEP, _STEP_LIST)
 mutant('C11', 'precomputed-instants-one-short', SV, _STEP, _STEP_LIST.replace('range(1, simulation_steps + 1)', 'range(1, simulation_steps)'), 'C11')
+
+# ------------------------------------------------------------------------------------------ C15 rules defined on every state
+mutant('C15', 'static-error-scales-angle (pre-fix shape)', RUTIL, """        static_error = AngularPosition(
+            value=(
+                (load_torque/maximum_torque)/powertrain_efficiency
+            )*braking_angle.value,
+            unit=braking_angle.unit
+        )
+""", """        static_error = (
+            (load_torque/maximum_torque)/powertrain_efficiency
+        )*braking_angle
+""", 'C15.defined')
+
+# ------------------------------------------------------------------------------------------ C18 snapshot spellings (false alarm met while probing)
+_SNAP = """                if variable in variables:
+                    interpolation_function = interp1d(
+                        x=[instant.to('sec').value for instant in self.time],
+                        y=[
+                            value.to(unit).value
+                            for value in element.time_variables[variable]
+                        ]
+                    )
+                    data.loc[element.name, f'{variable} ({unit})'] = \\
+                        interpolation_function(
+                        target_time.to('sec').value
+                    ).take(0)
+"""
+benign('C18', 'snapshot-abscissae-and-samples-in-locals', PT, _SNAP, """                if variable in variables:
+                    seconds = [instant.to('sec').value for instant in self.time]
+                    samples = [value.to(unit).value for value in element.time_variables[variable]]
+                    interpolation_function = interp1d(x=seconds, y=samples)
+                    data.loc[element.name, f'{variable} ({unit})'] = \\
+                        interpolation_function(target_time.to('sec').value).take(0)
+""")
+benign('C18', 'snapshot-inline-interp-in-ms', PT, _SNAP, """                if variable in variables:
+                    data.loc[element.name, f'{variable} ({unit})'] = interp1d(
+                        [instant.to('ms').value for instant in self.time],
+                        [value.to(unit).value for value in element.time_variables[variable]]
+                    )(target_time.to('ms').value).take(0)
+""")
+mutant('C18', 'snapshot-abscissae-ms-query-sec', PT, _SNAP, """                if variable in variables:
+                    data.loc[element.name, f'{variable} ({unit})'] = interp1d(
+                        [instant.to('ms').value for instant in self.time],
+                        [value.to(unit).value for value in element.time_variables[variable]]
+                    )(target_time.to('sec').value).take(0)
+""", 'C18.interp')
+mutant('C17', 'current-unassigned-in-dead-zone-when-i0-zero', DC, """            if pwm_min == 0:
+                self.electric_current = Current(
+                    value=0,
+                    unit=self.maximum_electric_current.unit
+                )
+            else:""", """            if pwm_min == 0:
+                return
+            else:""", 'C17.computed')
